@@ -118,3 +118,8 @@ pub proof fn lemma_watch_step(cfg: Seq<WatchedPath>, ps0: Set<WatchedPath>, ps1:
         }
     }
 }
+pub open spec fn err_names(e: RuntimeError, kind: Watcher, p: PathS, rm: bool) -> bool {
+    e is FsWatcher && e->FsWatcher_kind == kind
+    && (rm ==> e->FsWatcher_err is PathRemove && e->FsWatcher_err->PathRemove_path == p)
+    && (!rm ==> e->FsWatcher_err is PathAdd && e->FsWatcher_err->PathAdd_path == p)
+}
